@@ -404,7 +404,23 @@ def evaluate(case, drv):
             except Exception as e:  # noqa
                 return bad(f"step {step} {op}: the same call after editing its first result raised {type(e).__name__}: {str(e)[:120]}", step=step, op=op)
             if c2 != c1:
-                return bad(f"step {step} {op}: the same call after editing its first result returns something else: {describe_diff(c1, c2, 'result')}", step=step, op=op)
+                # control: is it the edit, or does a second call differ anyway (history dependence: C13's subject, not aliasing)?
+                try:
+                    ctl = GroupBy(keys, sort=case["sort"])
+                    for prev in case["history"][:step]:
+                        try:
+                            call(ctl, prev)
+                        except Exception:  # noqa
+                            pass
+                    k1 = snapshot((lambda r: dict(r) if op == "groups" else r)(call(ctl, op)))
+                    k2 = snapshot((lambda r: dict(r) if op == "groups" else r)(call(ctl, op)))
+                    unedited_differs = k1 != k2
+                except Exception:  # noqa
+                    unedited_differs = False
+                if unedited_differs:
+                    res["tags"].append("second-call-differs-without-edit")
+                else:
+                    return bad(f"step {step} {op}: the same call after editing its first result returns something else: {describe_diff(c1, c2, 'result')}", step=step, op=op)
             try:
                 c3 = snapshot((lambda r: {k: v for k, v in r.items()} if op == "groups" else r)(call(GroupBy(keys, sort=case["sort"]), op)))
             except Exception as e:  # noqa
